@@ -21,6 +21,7 @@ structure World where
   threads : List Thread := []
   loopLabel : String := "loop.ready"     -- where the loop thread is parked ("blocked" = inside the wait)
   loopDone : Bool := false
+  selfWake : Nat := 0                    -- the future wakes itself inside its first `selfWake` polls
   deriving Repr
 
 def act (w : World) (a : Act) : World :=
@@ -61,6 +62,15 @@ def loopStep (w : World) : World × String :=
     if w.s.lp == 3 then mark w "bo.swap" else mark w "loop.poll"
   | "bo.swap" =>
     let w := act w .swap
+    if w.s.lp == 9 then
+      -- the poll has begun (counted, waker stored); a self-waking future calls its waker before it parks at `fut.poll`
+      if w.selfWake > 0 then mark { (act w .wakerStart) with selfWake := w.selfWake - 1 } "bo.wake.store"
+      else mark w "fut.poll"
+    else mark w "loop.poll"
+  | "bo.wake.store" => mark (act w .wakerStore) "bo.wake.notify"
+  | "bo.wake.notify" => mark (act w .wakerNotify) "fut.poll"
+  | "fut.poll" =>
+    let w := act w .pollEnd
     if w.s.lp == 8 then mark w "done" else mark w "loop.poll"
   | "loop.poll" | "blocked" =>
     let w := if w.s.lp == 4 then act w .enterWait else w
@@ -107,10 +117,11 @@ structure Case where
   mode : Nat := 0
   progs : List (List TOp) := []
   sched : List Nat := []
+  selfWake : Nat := 0
 
 def runCase (c : Case) : List String :=
   let n := c.progs.length
-  let w0 : World := { s := { mode := c.mode }, threads := c.progs.map fun p => { ops := p } }
+  let w0 : World := { s := { mode := c.mode }, threads := c.progs.map fun p => { ops := p }, selfWake := c.selfWake }
   let (_, lines) := c.sched.foldl (fun (acc : RunSt × List String) t =>
     let (r', l) := stepThread acc.1 t n
     (r', acc.2 ++ [s!"step {t} {l} {snapshot r'.w}"])) (({ w := w0 } : RunSt), [])
@@ -120,6 +131,7 @@ def stepLine (c : Case) (line : String) : Case × List String :=
   match words line with
   | "case" :: nm :: _ => ({ name := nm }, [])
   | ["mode", m] => ({ c with mode := if m == "blockon" then 1 else 0 }, [])
+  | ["selfwake", n] => ({ c with selfWake := n.toNat?.getD 0 }, [])
   | ["threads", n] => ({ c with progs := List.replicate (n.toNat?.getD 0) [] }, [])
   | "thread" :: i :: _ =>
     let idx := ((i.dropEnd 1).toString.toNat?).getD 0
